@@ -33,6 +33,11 @@ ASSUMPTIONS = [
     "results channel after the request settled and read the retained objects again at the end of the history "
     "(a Result must not change after it was sent). The model takes the recorded set_power calls and the reported "
     "excess as inputs there.",
+    "PV lower bounds are rationals in the model. NaN / -inf / -0.0 / 0.0 inclusion lower bounds of single inverters are "
+    "exercised on a float path of the pv and wired_pv streams, judged by the oracle only (non-finite values in a Result "
+    "field or a set_power argument are violations; the other clauses within 1e-6): on the current code a NaN or -inf "
+    "bound acts as 'no bound' (max() skips it, the inverter gets its equal share). A +inf lower bound is not generated: "
+    "the current code then sends set_power(inf) and reports succeeded=inf, excess=-inf (noted, garbage-in).",
     "A call that has not replied when the timeout fires counts as timed out (failed) whatever happens afterwards: the "
     "scripted outcomes include replies that would arrive after the timeout and calls whose cancellation takes time to "
     "unwind (CancelledError caught, sleep, re-raised), alone and combined, in all streams. A client call that swallows "
